@@ -134,7 +134,7 @@ theorem okE_step (h : wfb a = true) {base : Expr} (ax : Axis) (t : NodeTest) (pr
   have ob := ihb c _ ha he hc hb
   split at hv
   · simp only [bind_ok, pure_ok] at hv
-    obtain ⟨r, hr, rfl⟩ := hv
+    obtain ⟨_, _, r, hr, rfl⟩ := hv
     refine Val.Ok.cleanup ?_
     intro x hx
     obtain ⟨n, hn, l, hl, hxl⟩ := (concatMapE_mem hr).mp hx
